@@ -707,16 +707,8 @@ class VMF:
 
         _remove_copyset(self.by_class, item['classname'].casefold(), item)
         _remove_copyset(self.by_target, item['targetname'].casefold() or None, item)
-        if 'nodeid' in item:
-            try:
-                node_id = int(item['nodeid'])
-            except (TypeError, ValueError):
-                pass
-            else:
-                self.node_id.discard(node_id)
-
-        # The entity keeps its ID reserved while the object exists (it may be added again),
-        # Entity.__del__ releases it.
+        # The entity keeps its ID and node ID reserved while the object exists (it may be added
+        # again). Entity.__del__ releases the ID, changing/deleting the nodeid key the node ID.
 
     def add_brushes(self, brushes: Iterable['Solid']) -> None:
         """Add multiple brushes to the map."""
